@@ -10,7 +10,6 @@ import (
 	"fmt"
 	"go/ast"
 	"go/constant"
-	"go/printer"
 	"go/token"
 	"go/types"
 	"os"
@@ -57,6 +56,8 @@ type facts struct {
 	Consts   map[string]string   `json:"consts"`
 	GoStarts []string            `json:"go_starts"`
 	Callers  map[string][]string `json:"callers"`
+	Raw      map[string][]string `json:"-"`
+	Formulas []formula           `json:"formulas"`
 }
 
 var fset *token.FileSet
@@ -120,7 +121,36 @@ func fieldName(info *types.Info, sel *ast.SelectorExpr) (string, bool) {
 			}
 		}
 	}
-	return shortPkg(v.Pkg()) + "." + owner + "." + v.Name(), true
+	fname := v.Name()
+	if isMutex(v.Type()) && n != nil {
+		// the only mutex of a struct is named by its role, not by its identifier
+		t := n.Underlying()
+		idx := s.Index()
+		for i := 0; i < len(idx)-1; i++ {
+			if st, ok := t.(*types.Struct); ok {
+				if nn := namedOf(st.Field(idx[i]).Type()); nn != nil {
+					t = nn.Underlying()
+				}
+			}
+		}
+		if st, ok := t.(*types.Struct); ok {
+			cnt := 0
+			for i := 0; i < st.NumFields(); i++ {
+				if isMutex(st.Field(i).Type()) {
+					cnt++
+				}
+			}
+			if cnt == 1 {
+				fname = "<mutex>"
+			}
+		}
+	}
+	return shortPkg(v.Pkg()) + "." + owner + "." + fname, true
+}
+
+func isMutex(t types.Type) bool {
+	n, ok := t.(*types.Named)
+	return ok && n.Obj().Pkg() != nil && n.Obj().Pkg().Path() == "sync" && (n.Obj().Name() == "Mutex" || n.Obj().Name() == "RWMutex")
 }
 
 type walker struct {
@@ -175,6 +205,11 @@ func (w *walker) chanName(e ast.Expr) string {
 				return "time.After"
 			}
 			return base + "." + s.Sel.Name + "()"
+		}
+	}
+	if id, ok := e.(*ast.Ident); ok {
+		if v, ok := w.info.Uses[id].(*types.Var); ok && !v.IsField() && v.Parent() != nil && v.Parent() != v.Pkg().Scope() {
+			return "<local>" // a local channel variable: its name is nobody's business
 		}
 	}
 	return w.exprName(e)
@@ -307,17 +342,43 @@ func (w *walker) walkExpr(e ast.Expr) {
 			}
 			w.calls[callee] = true
 			callSiteLocks[callee] = append(callSiteLocks[callee], append([]string{}, w.locks...))
+		}
+		// receiver and arguments are evaluated before the call happens
+		if fs, ok := x.Fun.(*ast.SelectorExpr); ok {
+			w.record(fs, false, false)
+			w.walkExpr(fs.X)
+		} else {
+			w.walkExpr(x.Fun)
+		}
+		for _, a := range x.Args {
+			// a func-typed field handed over as a callback (time.AfterFunc(d, s.cancel)) is `func() { s.cancel() }`
+			if as, ok := a.(*ast.SelectorExpr); ok {
+				if sel, ok := w.info.Selections[as]; ok && sel.Kind() == types.FieldVal {
+					if _, isFunc := sel.Type().Underlying().(*types.Signature); isFunc {
+						if n, ok := fieldName(w.info, as); ok {
+							w.f.Paths[w.fn] = append(w.f.Paths[w.fn], "fnfield "+n)
+						}
+					}
+				}
+			}
+			w.walkExpr(a)
+		}
+		if callee := w.calleeName(x); callee != "" {
 			w.f.Paths[w.fn] = append(w.f.Paths[w.fn], "call "+callee)
 			if strings.HasSuffix(callee, ".Wait") && strings.Contains(callee, "errgroup") {
 				w.f.Blocks = append(w.f.Blocks, block{Func: w.fn, Kind: "wait", Chan: "errgroup", Pos: pos(x.Pos())})
 			}
 		}
-		w.walkExpr(x.Fun)
-		for _, a := range x.Args {
-			w.walkExpr(a)
-		}
 		return
 	case *ast.SelectorExpr:
+		// a method value (s.onLogout passed as a handler, go-ed or deferred later): code that runs on behalf of this function
+		if sel, ok := w.info.Selections[x]; ok && sel.Kind() == types.MethodVal {
+			if fn, ok := sel.Obj().(*types.Func); ok && inRepo(fn.Pkg()) {
+				if n := namedOf(sel.Recv()); n != nil {
+					w.f.Paths[w.fn] = append(w.f.Paths[w.fn], "fn "+shortPkg(fn.Pkg())+"."+n.Obj().Name()+"."+fn.Name())
+				}
+			}
+		}
 		w.record(x, false, false)
 		w.walkExpr(x.X)
 		return
@@ -394,6 +455,7 @@ var callSiteLocks = map[string][][]string{}
 func (w *walker) closure(fl *ast.FuncLit) {
 	closureCount[w.fn]++
 	sub := &walker{info: w.info, pkg: w.pkg, f: w.f, fn: fmt.Sprintf("%s$%d", w.fn, closureCount[w.fn]), ctor: false, calls: map[string]bool{}}
+	w.f.Paths[w.fn] = append(w.f.Paths[w.fn], "fn "+sub.fn)
 	sub.walkBlock(fl.Body)
 	w.f.Callers[sub.fn] = keys(sub.calls)
 }
@@ -476,6 +538,7 @@ func (w *walker) walkStmt(s ast.Stmt) {
 		w.walkExpr(x.Chan)
 	case *ast.GoStmt:
 		w.f.GoStarts = append(w.f.GoStarts, w.fn+" -> "+w.goTarget(x.Call))
+		w.f.Paths[w.fn] = append(w.f.Paths[w.fn], "go")
 		w.walkExpr(x.Call)
 	case *ast.DeferStmt:
 		// defer mu.Unlock(): the lock stays held to the end of the function
@@ -619,23 +682,6 @@ func funcName(pkg *types.Package, fd *ast.FuncDecl) (string, string) {
 	return shortPkg(pkg) + "." + recv + "." + fd.Name.Name, recv
 }
 
-// recordExprs keeps the source text of the right-hand sides of the short variable declarations of a
-// function (the timer formulae), so that Lean can compare them with what the model assumes.
-func recordExprs(f *facts, name string, fd *ast.FuncDecl) {
-	ast.Inspect(fd.Body, func(n ast.Node) bool {
-		as, ok := n.(*ast.AssignStmt)
-		if !ok || as.Tok != token.DEFINE || len(as.Rhs) != 1 {
-			return true
-		}
-		if id, ok := as.Lhs[0].(*ast.Ident); ok {
-			var sb strings.Builder
-			_ = printer.Fprint(&sb, fset, as.Rhs[0])
-			f.Consts[name+"."+id.Name] = strings.Join(strings.Fields(sb.String()), " ")
-		}
-		return true
-	})
-}
-
 var isRepoFunc = map[string]bool{}
 
 // loadModelled reads the list of functions the hand-written expectations were written against
@@ -700,9 +746,7 @@ func main() {
 				}
 				name, _ := funcName(p.Types, fd)
 				isRepoFunc[name] = true
-				if name == "session.Session.start" || name == "utils..NewTimer" {
-					recordExprs(f, name, fd)
-				}
+				recordFormulas(p.TypesInfo, fd, &f.Formulas)
 				ctor := fd.Recv == nil && (strings.HasPrefix(fd.Name.Name, "New") || strings.HasPrefix(fd.Name.Name, "new"))
 				w := &walker{info: p.TypesInfo, pkg: p.Types, f: f, fn: name, ctor: ctor, calls: map[string]bool{}}
 				w.walkBlock(fd.Body)
@@ -721,6 +765,10 @@ func main() {
 	}
 	// helper functions the models do not know (extracted by a later refactor) are inlined into their callers'
 	// op lists: `modelled_funcs.txt` lists every function that existed when the expectations were written
+	f.Raw = map[string][]string{}
+	for k, v := range f.Paths {
+		f.Raw[k] = append([]string{}, v...)
+	}
 	if modelled := loadModelled(); modelled != nil {
 		var expand func(fn string, depth int) []string
 		expand = func(fn string, depth int) []string {
